@@ -502,9 +502,11 @@ func main() {
 		Rule: "part (a): every history of pool operations {AddTransaction(t), PackForCast(state k), MarkExecuted(block of the last packed batch minus an evicted subset | one-transaction block packed elsewhere), UnMarkExecuted(top block)} " +
 			"over a closed universe of colliding transactions (same sender nonces n,n,n+1,n+2; one RequestId transaction; one second object with the hash of n+1), up to the depth bound, breadth-first with dedup on " +
 			"(implementation dump, model state); each history is executed on a fresh real TxPool (replay + one op); after every op the return value, the pool dump and IsExisted/GetTransaction of every hash are compared with refpool. " +
-			"A history is counted as non-trivial if it contains a MarkExecuted or a PackForCast that returned a non-empty batch; histories are distinct by construction. Plus 60 scenarios of 199..250 transactions at the per-block limit.",
+			"A history is counted as non-trivial if it contains a MarkExecuted or a PackForCast that returned a non-empty batch; histories are distinct by construction. A packed batch stays available for MarkExecuted while other blocks are marked/unmarked, unless one of its transactions got executed meanwhile. " +
+			"Plus 60 scenarios of 199..250 transactions around the per-block limit of 200 (5 shapes x 4 sizes x 3 insertion orders: add all, pack, block, pack, block, pack, unmark, pack, unmark, pack).",
 		Assumptions: []string{
-			"node fixture: dev genesis, all forks active (checkNonce on, P023 ordering), accept-all consensus stub (not on the path)",
+			"node fixture: dev genesis, block height 20 = every proposal of the dev table active except the unreachable 025 (checkNonce on, proposal-023 batch ordering); thorough repeats a depth-7 exploration at height 11 (023 off, 021 ordering); accept-all consensus stub (not on the path)",
+			"AddTransaction does not verify signatures itself (VerifyTransaction is a separate call of the submitting layer); the universe's transactions are honestly signed with harness keys and pass VerifyTransaction",
 			"executed records live in a harness-owned db.MemDatabase per pool instead of the LevelDB store \"tx\"",
 			"pending container of the deep BFS levels is built by the verif hook with the fields of newSimpleContainer but without its one-minute expiry goroutine (the expiry ticker never fires inside a history); the first two levels and the limit scenarios use newSimpleContainer itself",
 			"pool debug logger silenced (VerifSetTxPoolLogger)",
